@@ -31,7 +31,7 @@
     (v) shape/frame lemmas of the other operations. *)
 From DV Require Import Model.Base Model.NameCheck Model.Parser Model.Header Model.Readers Model.Uncompress
   Model.Mutate Model.Compress Model.Renamer Spec.PacketSpec Spec.RecordSpec Spec.PlainSpec Proofs.Hoare Proofs.HeaderBits Proofs.InsertLemmas Proofs.EdnsPlain Proofs.WalkSkip
-  Proofs.PlainWf Proofs.ViewAfter Proofs.InsertSpec Proofs.HeaderInv Proofs.CursorHist Proofs.DecompressFirst Proofs.FreshHist Proofs.DeleteInv Proofs.SetNameInv Proofs.WalkInv Proofs.RenameCursor Spec.NameSpec Proofs.RenameSpec Proofs.RenameContent Proofs.WalkFresh Proofs.RenameAny.
+  Proofs.PlainWf Proofs.ViewAfter Proofs.InsertSpec Proofs.HeaderInv Proofs.CursorHist Proofs.DecompressFirst Proofs.FreshHist Proofs.DeleteInv Proofs.SetNameInv Proofs.WalkInv Proofs.RenameCursor Spec.NameSpec Proofs.RenameSpec Proofs.RenameContent Proofs.WalkFresh Proofs.RenameAny Proofs.RenameTotal.
 
 Theorem C08_decompression_keeps_edns_summary : forall p v q v',
   bytes_ok p -> parse p = Ok v -> uncompress p = Ok q -> parse q = Ok v' ->
@@ -374,4 +374,37 @@ Example C08_rename_history_runs :
             (pp_packet (fst s), r)
   | _ => ([], Err InvalidPacket)
   end = ([0;7; 129;128; 0;1; 0;1; 0;0; 0;0;  1;97;0; 0;1; 0;1;  192;12; 0;1; 0;1; 0;0;0;9; 0;4; 1;2;3;4]%N, Ok tt).
+Proof. vm_compute. reflexivity. Qed.
+
+(** ... and every such history runs to the end (Proofs/RenameTotal.v): with failing steps tolerated, no step has a Panic outcome of the
+    model - no assertion (the `assert_eq!` on the EDNS summary included), slice, subtraction or unwrap of the code fails - and after
+    every step, successful or refused, the object is again its own fresh parse.  (A refused step need not leave the object untouched:
+    an insertion or an owner-name change refused after its decompress-first prologue leaves the decompressed form; C10 says what that is.) *)
+Example C08_tolerant_rename_run_means :
+  (forall o ops s, run_hops4_tol (o :: ops) s =
+     match run_hop4 o s with (s1, Ok _) => run_hops4_tol ops s1 | (s1, Err _) => run_hops4_tol ops s1 | (s1, Panic x) => (s1, Panic x) end) /\
+  (forall o ops s, ok_along4_tol (o :: ops) s =
+     (hop4_ok_at (fst s) o /\ match run_hop4 o s with (s1, Ok _) => ok_along4_tol ops s1 | (s1, Err _) => ok_along4_tol ops s1 | _ => True end)).
+Proof. split; reflexivity. Qed.
+
+Theorem C08_step_with_rename_total : forall o v it, objst v -> is_response (pp_packet v) -> it_section it <> SQuestion -> hop4_ok_at v o ->
+  exists s1 r, run_hop4 o (v, it) = (s1, r) /\ (r = Ok tt \/ exists e, r = Err e) /\
+               objst (fst s1) /\ snd s1 = it /\ is_response (pp_packet (fst s1)).
+Proof. exact hop4_outcome. Qed.
+Print Assumptions C08_step_with_rename_total.
+
+Theorem C08_histories_with_rename_total : forall p v it ops, bytes_ok p -> parse p = Ok v -> is_response p -> it_section it <> SQuestion ->
+  ok_along4_tol ops (v, it) ->
+  exists s', run_hops4_tol ops (v, it) = (s', Ok tt) /\ objst (fst s') /\ snd s' = it /\ is_response (pp_packet (fst s')).
+Proof. exact parsed_history4_total. Qed.
+Print Assumptions C08_histories_with_rename_total.
+
+(** such a tolerant history runs: a rename whose result would exceed 255 bytes is refused, the deletion and the second rename go through *)
+Example C08_tolerant_rename_history_runs :
+  match parse c08_two_answers with
+  | Ok v => let '(s, r) := run_hops4_tol [H4Rename [repeat 98%N 63; repeat 98%N 63; repeat 98%N 63; repeat 98%N 62]%N [[97]]%N false;
+                                          H4Op (H3Delete 35); H4Rename [[98;99];[100]]%N [[97]]%N true] (v, c08_cursor) in
+            (pp_packet (fst s), r)
+  | _ => ([], Err InvalidPacket)
+  end = ([0;7; 129;128; 0;1; 0;1; 0;0; 0;0;  2;98;99;1;100;0; 0;1; 0;1;  192;12; 0;1; 0;1; 0;0;0;9; 0;4; 1;2;3;4]%N, Ok tt).
 Proof. vm_compute. reflexivity. Qed.
